@@ -35,6 +35,40 @@ theorem minComb_spec (scores : List Nat) (iStart iEnd : Int) (c : List Nat) (k :
 theorem minComb_nodup (scores : List Nat) (iStart iEnd : Int) : (minCombinations scores iStart iEnd).Nodup := by
   first | exact WindVerif.Generic.minComb_nodup .. | (apply WindVerif.Generic.minComb_nodup <;> assumption)
 
+/-! ### any elements, repeats included (a direct call; the anchored call above is `val = id`) -/
+
+/-- every non-empty index combination exactly once, whatever the element values are (ties among the queue tuples are broken
+through the values, completeness does not depend on it) -/
+theorem combosV_complete (val : Nat → Nat) (scores : List Nat) :
+    ((sortedCombinationsV val scores).map (·.1)).Perm (allCombos scores.length) := by
+  first | exact WindVerif.Generic.combosV_complete .. | (apply WindVerif.Generic.combosV_complete <;> assumption)
+
+theorem combosV_keys (val : Nat → Nat) (scores : List Nat) (p : List Nat × Nat)
+    (hp : p ∈ sortedCombinationsV val scores) : p.2 = scoreSum scores p.1 := by
+  first | exact WindVerif.Generic.combosV_keys .. | (apply WindVerif.Generic.combosV_keys <;> assumption)
+
+theorem combosV_sorted (val : Nat → Nat) (scores : List Nat) :
+    ((sortedCombinationsV val scores).map (·.2)).Pairwise (· ≤ ·) := by
+  first | exact WindVerif.Generic.combosV_sorted .. | (apply WindVerif.Generic.combosV_sorted <;> assumption)
+
+/-- a direct call on elements with repeats, key = sum: the yielded value tuples are the value tuples of all non-empty index
+combinations, each once (as a multiset) -/
+theorem combosE_complete (elems : List Nat) :
+    ((sortedCombinationsE elems).map (·.1)).Perm
+      ((allCombos elems.length).map (fun c => c.map (fun i => elems.getD i 0))) := by
+  first | exact WindVerif.Generic.combosE_complete .. | (apply WindVerif.Generic.combosE_complete <;> assumption)
+
+/-- the key alongside is the sum of the yielded tuple -/
+theorem combosE_keys (elems : List Nat) (p : List Nat × Nat) (hp : p ∈ sortedCombinationsE elems) :
+    p.2 = p.1.sum := by
+  first | exact WindVerif.Generic.combosE_keys .. | (apply WindVerif.Generic.combosE_keys <;> assumption)
+
+theorem combosE_sorted (elems : List Nat) : ((sortedCombinationsE elems).map (·.2)).Pairwise (· ≤ ·) := by
+  first | exact WindVerif.Generic.combosE_sorted .. | (apply WindVerif.Generic.combosE_sorted <;> assumption)
+
+/-- non-vacuity: `sorted_combinations([1, 2, 1], sum)` — 7 tuples, the repeated value keeps both its occurrences -/
+example : (sortedCombinationsE [1, 2, 1]).map (·.1) = [[1], [1], [2], [1, 1], [1, 2], [2, 1], [1, 2, 1]] := by decide
+
 /-- non-vacuity -/
 example : allCombos 2 = [[1], [0], [0, 1]] := by decide
 
